@@ -1060,6 +1060,14 @@ void MDSDRV_Converter::parse_track(int track_id)
 	}
 }
 
+//! Subroutine, macro track and data indices are stored in one byte of the sequence.
+static inline uint8_t index_byte(uint32_t index)
+{
+	if(index > 0xff)
+		throw InputError(nullptr, stringf("MDSDRV: index %u does not fit in a byte (too many subroutines, macro tracks, instruments or envelopes)", index).c_str());
+	return index;
+}
+
 //! Convert an event stream (track or subroutine) to a MDSDRV byte stream.
 /*!
  * This is essentially the final pass of the MML sequence data. Optimization to
@@ -1180,19 +1188,19 @@ std::vector<uint8_t> MDSDRV_Converter::convert_track(const std::vector<MDSDRV_Ev
 				case MDSDRV_Event::MTAB: // 8-bit arg with offset
 					track_data.push_back(type);
 					if(arg)
-						track_data.push_back(arg + subroutine_list.size());
+						track_data.push_back(index_byte(arg + subroutine_list.size()));
 					else
 						track_data.push_back(0);
 					break;
 				case MDSDRV_Event::INS: // 8-bit arg with offset
 				case MDSDRV_Event::PCM:
 					track_data.push_back(type);
-					track_data.push_back(get_data_id(arg));
+					track_data.push_back(index_byte(get_data_id(arg)));
 					break;
 				case MDSDRV_Event::PEG:	// 8-bit arg with offset and toggle
 					track_data.push_back(type);
 					if(arg)
-						track_data.push_back(get_data_id(arg));
+						track_data.push_back(index_byte(get_data_id(arg)));
 					else
 						track_data.push_back(0);
 					break;
@@ -1212,7 +1220,7 @@ std::vector<uint8_t> MDSDRV_Converter::convert_track(const std::vector<MDSDRV_Ev
 					break;
 				case MDSDRV_Event::PAT: // subroutine
 					track_data.push_back(type);
-					track_data.push_back(arg);
+					track_data.push_back(index_byte(arg));
 					last_rest = 0xffff;
 					last_note = 0xffff;
 					break;
